@@ -15,6 +15,8 @@ PRE = [B('SET', 'ks', '10'), B('SET', 'kt', 'text', 'EX', '1000'), B('RPUSH', 'k
        B('SADD', 'kS2', 'b', 'c', 'd'), B('HSET', 'kh', 'f', '1', 'g', 'x'), B('ZADD', 'kz', '1', 'a', '2', 'b', '3', 'c'),
        B('XADD', 'kx', '1-1', 'f', 'v'), B('XADD', 'kx', '2-0', 'g', 'w')]
 
+PRE_KEYS = [b'ks', b'kt', b'kl', b'kS', b'kS2', b'kh', b'kz', b'kx']
+
 FORMS = [B(*f) for f in [
     # strings
     ('SET', 'ks', 'v'), ('SET', 'new', 'v'), ('SET', 'kl', 'v'), ('SET', 'kt', 'v'), ('SET', 'ks', 'v', 'EX', '100'), ('SET', 'ks', 'v', 'PX', '90000'),
